@@ -11,6 +11,8 @@ import Switcher.Spec.Layout
 import Switcher.Spec.Faults
 import Switcher.Spec.Replies
 import Switcher.Spec.Broadcast
+import Switcher.Spec.Zone
+import Switcher.Spec.NextRun
 import Switcher.Model.Wire
 open Spec Wire
 
@@ -58,6 +60,19 @@ def parseTh : List String → Option ThermoB
            t := { on := on == "1", mode := ← nat? mode, fan := ← nat? fan, swing := swing == "1", tempTenths := ← nat? temp,
                   target := ← nat? target, remote := ← bytesOfHex? remote } }
   | _ => none
+
+def parseZone (tok : String) : Option Zone := do
+  let body := (tok.drop 2).toString
+  match body.splitOn ";" with
+  | b :: ts =>
+    let base ← int? b
+    let trans ← ts.mapM (fun t => match t.splitOn ":" with
+      | [a, o] => do pure ((← int? a), (← int? o))
+      | _ => none)
+    pure { base, trans }
+  | [] => none
+
+def two (n : Int) : String := (if n < 10 then "0" else "") ++ toString n
 
 def judge : List String → String
   | ["sig", hx] =>                      -- the protocol's four signature bytes of a byte string
@@ -181,6 +196,25 @@ def judge : List String → String
   | ["c06gate", h] => match bytesOfHex? h with
     | some m => if isBroadcast m then "1" else "0"
     | none => "bad-arg"
+  | ["c11exists", z, now, h, m, hx, back] =>
+    match parseZone z, int? now, int? h, int? m, bytesOfHex? hx with
+    | some z, some n, some h, some m, some bs => if c11ok z n h m (ofLE bs) back (two h ++ ":" ++ two m) then "1" else "0"
+    | _, _, _, _, _ => "bad-arg"
+  | ["h2l", z, hx] =>                              -- Spec decoder: HH:MM shown by the LE32 instant in the zone
+    match parseZone z, bytesOfHex? hx with
+    | some z, some bs =>
+      let w := wall z (ofLE bs)
+      if bs.length == 4 then "ok " ++ two (w % 86400 / 3600) ++ ":" ++ two (w % 3600 / 60) else "bad-arg"
+    | _, _ => "bad-arg"
+  | ["c13", cur, mask, ahead, start, txt] =>        -- C13: the text is the rendering of an earliest run
+    match nat? cur, nat? mask, text? start, text? txt with
+    | some c, some m, some st, some t =>
+      let days := daysOfMask m
+      if days.isEmpty then (if t == renderRun .today st then "1" else "0")
+      else
+        let cands := [RunDay.today, RunDay.tomorrow] ++ days.map RunDay.next
+        if cands.any (fun o => decide (IsEarliest c days (ahead == "1") o) && t == renderRun o st) then "1" else "0"
+    | _, _, _, _ => "bad-arg"
   | _ => "bad-op"
 
 def main : IO Unit := do Wire.loop (← IO.getStdin) (← IO.getStdout) judge
